@@ -96,6 +96,12 @@ def run(tier):
         raise vlib.Infra("vectorised driver failed for %s" % crashed[:3])
     files = [f for f in files if os.path.getsize(f) > 0]
     res = chk.traces("TaskPoolTrace", files, what="%d array classes + free functions + array-taking methods of Matrix44 / Box / FrustumTest (hand-written tasks, incl. the per-thread partial boxes of Box.extendBy) + array methods with heterogeneous arguments + every operator of the 2-D array and matrix classes against an independent element oracle; %d schedules (all partitions/orders of %d cells from TLC, fine partitions, threaded variants)" % (len(classes) - 3, len(sch), 5 if thorough else 4), heap="6g")
+    # the scalar bindings of the math free functions against the definitions of the C++ functions they wrap (FunTrace = C17's spec)
+    e2 = dict(os.environ)
+    e2.update(py["env"])
+    scp = vlib.run_to_file([py["python"], drv, so, sp, "@scalars", str(vlib.SEED), tier], os.path.join(chk.work, "scalars.ndjson"), timeout=1800, env=e2)
+    sfiles, _ = vlib.split_file(scp, 8, chk.work, "scalars")
+    chk.traces("FunTrace", sfiles, what="scalar bindings imath.clamp / lerp / lerpfactor / abs / sign / cmp / cmpt / iszero / equal (double and int overloads) and divs / mods / divp / modp, on IEEE specials (NaN, signed zeros, infinities, inverted ranges) and dyadic operands, against the definitions of the C++ functions", episodes=1)
     combos = 0
     for f in files:
         combos += sum(1 for line in open(f) if line.startswith('{"e": "ref"'))
@@ -105,6 +111,6 @@ def run(tier):
     chk.assumptions += ["entry points are discovered by introspection of the module; a combination that raises TypeError on 6-element arrays is treated as non-existent",
                         "the scalar-binding comparison is made for class-element arrays (V*, Quat*, M*, C*, Box*) and the free functions; for primitive-element arrays Python's own operators are not the scalar binding and that clause is not judged",
                         "threaded schedules run each range on its own thread released by a barrier; data races that never change a result are not detected",
-                        "scalar bindings vs the C++ library are covered by the C++ recorders of the other properties, not here"]
+                        "scalar bindings vs the C++ library: judged here for the math free functions (clamp, lerp, lerpfactor, abs, sign, cmp, cmpt, iszero, equal, divs/mods/divp/modp) against C17's definitions; for the class methods the C++ functions themselves are judged by the other properties' recorders and the bindings are taken to forward to them"]
     return chk.finish(extra_cov={"entry_point_combinations": combos, "negative_controls_rejected": neg, "schedules": len(sch),
                                  "rule": "one sched record per (class, operator/method/function, argument-kind combination, length, schedule, threaded?)"})
